@@ -88,27 +88,7 @@ theorem noteAll_eq (ns : Nodes) (T : PType) (pred : NodeId → Bool) (d : NodeId
     List.nodup_range d
   simp only [List.mem_range] at h
   rw [← h]
-  unfold noteAll
-  congr 1
-  funext d node
-  by_cases hc : (ns.ptype node == T) = true
-  · simp only [hc, if_true]
-    by_cases hp : pred node = true
-    · simp only [hp, if_true]
-      by_cases hn : (d node).isNone = true
-      · simp only [hn, if_true]
-        funext m
-        by_cases hm : m = node <;> simp [Sim.upd, hm]
-      · simp [hn]
-    · simp only [hp]
-      by_cases hn : (d node).isNone = true
-      · simp [hn]
-      · simp only [hn]
-        funext m
-        by_cases hm : m = node
-        · subst hm; simp [Sim.upd]
-        · simp [Sim.upd, hm]
-  · simp [hc]
+  rfl
 
 theorem init_eq_stateAfter (ns : Nodes) (eager : Bool) (s : Spec) : s.init ns eager = stateAfter ns eager s 0 := by
   cases s with
